@@ -169,3 +169,7 @@ static inline v8u64 llvm_x86_avx512_mask_cvttpd2uqq_512(v8f64 a, v8u64 src, u8 k
 static inline v8u64 llvm_x86_avx512_mask_cvtpd2qq_512(v8f64 a, v8u64 src, u8 k, u32 rc) {
   v8u64 r; for (int i = 0; i < 8; ++i) r.e[i] = ((k >> i) & 1) ? LL_CVTT64(nearbyint(a.e[i])) : src.e[i]; return r; }
 #endif
+#ifdef NEED_llvm_x86_avx512_mask_cvtps2udq_512
+static inline v16u32 llvm_x86_avx512_mask_cvtps2udq_512(v16f32 a, v16u32 src, u16 k, u32 rc) {
+  v16u32 r; for (int i = 0; i < 16; ++i) r.e[i] = ((k >> i) & 1) ? LL_CVTTU32(nearbyintf(a.e[i])) : src.e[i]; return r; }
+#endif
